@@ -30,6 +30,7 @@ BUDGET = {'quick': 14, 'thorough': 120}
 K_RENDER = 'render-stage-error-body-empty'
 K_FORM = 'error-body-via-form-handlers'
 K_XMLCR = 'xml-error-cr-not-preserved'
+K_STALE = 'handler-written-body-survives-reraise'
 
 CUSTOM_TYPE = 'application/x-c04'
 BOOM_TYPE = 'application/x-c04-boom'
@@ -289,6 +290,18 @@ class Program:
             except Exception as ex:  # noqa
                 self.ctl.harness_error = 'cannot build %r: %r' % (b[1], ex)
                 return
+            pre = b[2] if len(b) > 2 else None
+            if pre:
+                # the handler starts composing a response, then changes its mind and raises
+                if 'text' in pre:
+                    resp.text = pre['text']
+                if 'text_bytes' in pre:
+                    resp.text = pre['text_bytes'].encode('utf-8')
+                if 'data' in pre:
+                    resp.data = pre['data'].encode('utf-8')
+                if 'media' in pre:
+                    resp.media = pre['media']
+                    resp.content_type = falcon.MEDIA_JSON
             self.ctl.log.append(('hraise', inst, b[1]))
             raise inst
         resp.status = b[1]
@@ -555,6 +568,7 @@ class Checker:
     def __init__(self, rec, prog, steps_done):
         self.rec, self.prog, self.steps_done = rec, prog, steps_done
         self.found = []
+        self.prewrite = None
 
     def report(self, kind, rq, detail, known=None):
         self.found.append((kind, detail, known))
@@ -695,6 +709,11 @@ class Checker:
         if hid == 'D:hs':
             return 'status', es
         b = prog.behaviours[hid]
+        if b[0] in ('raise_http', 'raise_status') and len(b) > 2 and b[2]:
+            self.prewrite = b[2]
+            rec.count('chain.handler_wrote_before_raise')
+            for k_ in b[2]:
+                rec.count('chain.wrote_%s_then_%s' % (k_, b[0]))
         if b[0] == 'raise_http':
             rec.count('chain.handler_raised_http_error')
             hr = [e for e in log if e[0] == 'hraise'][-1]
@@ -719,6 +738,34 @@ class Checker:
         if at_render and want_nonempty and out['body'] == b'' and hvalues(out, 'content-length') in (['0'], []):
             return K_RENDER
         return None
+
+    def stale_known(self, outcome, out):
+        """Narrow classifier of the recorded finding "what an error handler wrote before raising survives the
+        rendering of the raised HTTPError/HTTPStatus": the body is exactly a field the handler wrote AND that
+        field is one the rendering of the raised object does not itself assign (an HTTPStatus assigns text, so a
+        surviving text is never attributed to the finding)."""
+        pre = self.prewrite
+        if not pre or not out['body']:
+            return None
+        body = out['body']
+        field = None
+        if 'text' in pre and body == pre['text'].encode('utf-8'):
+            field = 'text'
+        elif 'text_bytes' in pre and body == pre['text_bytes'].encode('utf-8'):
+            field = 'text'
+        elif 'data' in pre and body == pre['data'].encode('utf-8'):
+            field = 'data'
+        elif 'media' in pre:
+            try:
+                if M.decode_json(body) == pre['media']:
+                    field = 'media'
+            except M.Undecodable:
+                pass
+        if field is None:
+            return None
+        if outcome == 'status' and field == 'text':
+            return None
+        return K_STALE
 
     def check_status(self, rq, out, es, method, at_render):
         rec = self.rec
@@ -746,8 +793,9 @@ class Checker:
         want = (text or '').encode('utf-8')
         rec.count('mon.body.status_text')
         if out['body'] != want:
-            self.report('body-mismatch', rq, {'outcome': 'HTTPStatus', 'want': want, 'got': out['body'][:300]},
-                        self.body_known(at_render, bool(want), out))
+            self.report('body-mismatch', rq, {'outcome': 'HTTPStatus', 'want': want, 'got': out['body'][:300],
+                                              'handler_wrote_first': self.prewrite},
+                        self.body_known(at_render, bool(want), out) or self.stale_known('status', out))
 
     def check_custom(self, rq, out, b, method, at_render):
         rec = self.rec
@@ -830,6 +878,8 @@ class Checker:
                 known = K_RENDER
             elif mp_known and observed == 'empty':
                 known = mp_known
+            else:
+                known = self.stale_known('error', out)
             self.report('negotiation', rq, {'accept': accept, 'allowed': sorted(allowed), 'observed': observed,
                                             'candidates': cands, 'body': body[:200]}, known)
             return
@@ -863,7 +913,10 @@ class Checker:
                         return
             elif ctype == M.URLENC:
                 rec.count('mon.body.urlencoded')
-                q = parse_qs(body.decode('ascii'), keep_blank_values=True, strict_parsing=False)
+                try:
+                    q = parse_qs(body.decode('ascii'), keep_blank_values=True, strict_parsing=False)
+                except UnicodeDecodeError:
+                    raise M.Undecodable('body is not an ASCII form')
                 flat = {}
                 for k, v in q.items():
                     flat[k] = v[0] if len(v) == 1 else v
@@ -881,13 +934,15 @@ class Checker:
                     return
             else:
                 self.report('body-mismatch', rq, {'repr': ctype, 'problem': 'unknown representation of an error',
-                                                  'body': body[:200]}, mp_known)
+                                                  'body': body[:200]}, mp_known or self.stale_known('error', out))
                 return
         except M.Undecodable as ex:
-            self.report('body-mismatch', rq, {'repr': ctype, 'problem': str(ex), 'body': body[:300]})
+            self.report('body-mismatch', rq, {'repr': ctype, 'problem': str(ex), 'body': body[:300],
+                                              'handler_wrote_first': self.prewrite}, self.stale_known('error', out))
             return
         if bad:
-            self.report('body-mismatch', rq, {'repr': ctype, 'fields': bad[:3], 'body': body[:300]})
+            self.report('body-mismatch', rq, {'repr': ctype, 'fields': bad[:3], 'body': body[:300],
+                                              'handler_wrote_first': self.prewrite}, self.stale_known('error', out))
         cl = hvalues(out, 'content-length')
         if cl and cl != [str(len(body))]:
             self.report('body-mismatch', rq, {'problem': 'content-length', 'header': cl, 'len': len(body)})
@@ -1169,8 +1224,24 @@ def rand_behaviour(rng):
     if r < 0.7:
         return ['none', st, None, hd]
     if r < 0.88:
-        return ['raise_http', rand_http_error_spec(rng)]
-    return ['raise_status', rand_status_spec(rng)]
+        return ['raise_http', rand_http_error_spec(rng), rand_prewrite(rng)]
+    return ['raise_status', rand_status_spec(rng), rand_prewrite(rng)]
+
+
+PREWRITES = [{'text': 'pre-written text \xe9'}, {'text_bytes': 'pre-written bytes'}, {'data': 'pre-written data'},
+             {'media': {'pre': ['written', 1]}},
+             {'text': 'pre-written text', 'data': 'pre-written data', 'media': {'pre': 'written'}}]
+
+
+def rand_prewrite(rng):
+    """what an error handler writes to the response before it raises (None: nothing)"""
+    if rng.random() < 0.6:
+        return None
+    # (media written first is exercised by the exhaustive block only: whether a surviving media can be
+    #  serialized at all depends on the Content-Type the later rendering happens to leave behind)
+    pre = dict(rng.choice(PREWRITES))
+    pre.pop('media', None)
+    return pre
 
 
 MIXED_CASE_SUFFIX = ['application/vnd.acme.v2+JSON', 'Application/Atom+XML', 'application/vnd.c04+Json',
@@ -1383,6 +1454,8 @@ def rand_program(rng, stack):
         for h, b in handlers.items():
             if b[0] == 'media':
                 handlers[h] = ['text', b[1], 'no json here', b[3]]
+            elif len(b) > 2 and isinstance(b[2], dict) and 'media' in b[2]:
+                b[2].pop('media')
     steps = []
     for _ in range(rng.randint(0, 4)):
         steps.append(rand_reg(rng, classes, hids))
@@ -1583,6 +1656,41 @@ def e4_requests():
     return out
 
 
+E5_RAISES = [
+    ['raise_status', {'cls': 'HTTPStatus', 'status': 202, 'headers': [['X-S', '1']], 'text': None}],
+    ['raise_status', {'cls': 'HTTPFound', 'location': '/elsewhere', 'headers': None}],
+    ['raise_status', {'cls': 'HTTPStatus', 'status': 200, 'headers': None, 'text': ''}],
+    ['raise_status', {'cls': 'HTTPStatus', 'status': '299 Fine', 'headers': None, 'text': 'status text \xe9'}],
+    ['raise_http', {'cls': 'HTTPConflict', 'title': 'T5', 'description': 'D5', 'code': 0}],
+]
+E5_SITES = ['mw0.req', 'mw1.rsrc', 'responder', 'sink', 'mw0.resp']
+E5_ACCEPTS = [None, CUSTOM_TYPE, 'image/png', 'text/xml']
+
+
+def e5_program(stack):
+    """every (what the handler wrote first) x (what it then raised), a class + handler per combination"""
+    classes = [['A', ['Exception'], False]]
+    handlers, regs, names = {}, [], []
+    for i, pre in enumerate(PREWRITES):
+        for j, rz in enumerate(E5_RAISES):
+            name = 'W%d_%d' % (i, j)
+            classes.append([name, ['A'], False])
+            handlers['w' + name] = [rz[0], rz[1], dict(pre)]
+            regs.append(['reg', [name], 'w' + name])
+            names.append(name)
+    base = {'stack': stack, 'cfg': {'xml': True, 'custom_media': True, 'independent': True}, 'classes': classes,
+            'handlers': handlers, 'steps': regs}
+    reqs = []
+    for name in names:
+        for site in E5_SITES:
+            for acc in E5_ACCEPTS:
+                rq = {'method': 'GET', 'accept': acc, 'plan': [[site, None, {'cls': name}]]}
+                if site == 'sink':
+                    rq['path'] = 'sink'
+                reqs.append(rq)
+    return base, reqs
+
+
 def chunked_program(rec, base, requests, size=40):
     """run `requests` against fresh apps built from `base` (+ its registrations), `size` per app."""
     for i in range(0, len(requests), size):
@@ -1654,6 +1762,12 @@ def run(rec):
                 'handlers': {}, 'steps': []}
         chunked_program(rec, base, mine, size=200)
         rec.count('e4.requests', len(mine))
+    # ---- E5: an error handler writes text/bytes/data/media to the response, then raises HTTPStatus/HTTPError
+    for stack in ('wsgi', 'asgi'):
+        base, reqs = e5_program(stack)
+        mine = [r for r in reqs if (idx := idx + 1) % n == me]   # noqa
+        chunked_program(rec, base, mine, size=100)
+        rec.count('e5.requests', len(mine))
     rec.exhaustive = True
     if me == 0:
         rec.note('exhaustive parts: E1 all registration histories of length <= %d over %d targets x 2 stacks; '
@@ -1688,6 +1802,9 @@ def run(rec):
         'req.multi_raise': 1200, 'req.body_set_before_raise': 3300,
         'site.responder': 9000, 'site.noroute': 600, 'site.meta': 190, 'site.nomethod': 190, 'site.render': 210,
         'stack.wsgi': 220, 'stack.asgi': 220, 'random.programs': 40,
+        'chain.handler_wrote_before_raise': 600, 'chain.wrote_text_then_raise_status': 150,
+        'chain.wrote_text_bytes_then_raise_status': 90, 'chain.wrote_data_then_raise_status': 150,
+        'chain.wrote_media_then_raise_status': 150, 'chain.wrote_text_then_raise_http': 40,
         'vary.error_defines_members': 500, 'vary.set_before_raise': 550, 'negotiation.mixed_case_decided': 300,
     }
     for s_ in SITES_REQ + SITES_MID + ['sink'] + SITES_RESP:
